@@ -77,6 +77,7 @@ FAMILIES = {
     "C30": ["tramp"],
     "C35": ["periodic"],
     "C37": ["srcfac"],
+    "C10": ["seqcomp"],
     "C40": ["op", "resrc"],
     "C08": ["opacity"],
     "C05": ["op"],
@@ -111,6 +112,8 @@ def units_for(prop, tier):
         us += forward_units(prop)
     if "class" in fams:
         us += class_units(prop)
+    if "seqcomp" in fams:
+        us.append({"runner": "seqcomp", "prop": prop, "id": "reactivex/observable/concat.py::sequential-composition"})
     if "resrc" in fams:
         us.append({"runner": "resrc", "prop": prop, "id": "reactivex/observable/using.py::using_+finally"})
     if "srcfac" in fams:
